@@ -136,7 +136,9 @@ class ConcLogic:
         return self.le(b, a)
 
     def lt(self, a, b):
-        return bool(float(a) < float(b) + self._t(a, b))
+        # strict claims are only replayed after the solver produced an exact-arithmetic counterexample (a >= b);
+        # a float run that lands within rounding of equality must count as reproducing it, so strictness needs a margin
+        return bool(float(a) < float(b) - self._t(a, b))
 
     def gt(self, a, b):
         return self.lt(b, a)
@@ -185,6 +187,7 @@ class SymInputs:
 
     def __init__(self, eng):
         self.eng = eng
+        self._eq = {}
 
     def real(self, name):
         return self.eng.real(name)
@@ -195,6 +198,14 @@ class SymInputs:
 
     def bv(self, name, width=16):
         return self.eng.bitvec(name, width)
+
+    def int_is(self, name, k):
+        """Is the symbolic integer input `name` equal to k?  (forks; used for crash indices)"""
+        key = (name, int(k))
+        t = self._eq.get(key)
+        if t is None:
+            t = self._eq[key] = (self.eng.integer(name) == int(k))
+        return self.eng.branch(t)
 
     def choose(self, n, label="choice"):
         return self.eng.choose(n, label)
@@ -222,6 +233,10 @@ class ConcInputs:
     def bv(self, name, width=16):
         v = self.values.get(name, 0)
         return int(Fraction(v)) if isinstance(v, str) else int(v)
+
+    def int_is(self, name, k):
+        v = self.values.get(name, -1)
+        return (int(Fraction(v)) if isinstance(v, str) else int(v)) == int(k)
 
     def choose(self, n, label="choice"):
         if self._ci < len(self.choices):
@@ -305,7 +320,9 @@ def load_known_findings():
                 continue
             kind, _, rest = line.partition(":")
             fields = dict(tok.split("=", 1) for tok in rest.split() if "=" in tok and tok.split("=", 1)[0] in ("property", "signature", "commit"))
-            entry = {"property": fields.get("property"), "signature": fields.get("signature"), "text": rest.strip()}
+            words = [w for w in rest.split() if not (w.startswith("property=") or w.startswith("signature=") or w.startswith("commit="))]
+            entry = {"property": fields.get("property"), "signature": fields.get("signature"),
+                     "text": f"signature={fields.get('signature')} " + " ".join(words)}
             (findings if kind.strip() == "finding" else fixed).append(entry)
     return findings, fixed
 
@@ -506,6 +523,8 @@ def _predict(eng, paths, vec, assumptions, lg):
             subst.append((var, z3.RealVal(f.numerator) if f.denominator == 1 else z3.Q(f.numerator, f.denominator)))
         elif z3.is_bv(var):
             subst.append((var, z3.BitVecVal(int(Fraction(vec.get(name, 0))), var.size())))
+        elif z3.is_int(var):
+            subst.append((var, z3.IntVal(int(Fraction(vec.get(name, -1))))))
     for a in assumptions:
         t = z3.simplify(z3.substitute(lg.truth(a), *subst))
         if not z3.is_true(t):
